@@ -223,11 +223,12 @@ class Ctx:
         if n <= 1:
             fn(self, 0, *args)
             return
+        # non-daemonic workers (a check may itself start worker processes, e.g. depccg.parsing.run)
+        import concurrent.futures
         mp = multiprocessing.get_context('fork')
-        with mp.Pool(n) as pool:
-            res = [pool.apply_async(_shard_entry, (fn, self.prop, self.tier, self.seed, i, args))
-                   for i in range(n)]
-            outs = [r.get() for r in res]
+        with concurrent.futures.ProcessPoolExecutor(max_workers=n, mp_context=mp) as pool:
+            futs = [pool.submit(_shard_entry, fn, self.prop, self.tier, self.seed, i, args) for i in range(n)]
+            outs = [f.result() for f in futs]
         for o in outs:
             if 'error' in o:
                 raise HarnessError('shard failed:\n' + o['error'])
